@@ -1,0 +1,244 @@
+//! Verification hooks (compiled only with `--cfg tsrun_verif`).
+//!
+//! Thread-local seams and counters used by an external deterministic
+//! simulator. Nothing here is compiled into a normal build, and with the
+//! default settings (no decision function installed, fuel unarmed) none of
+//! the hooks changes behaviour.
+
+use std::cell::{Cell, RefCell};
+use std::boxed::Box;
+use std::vec::Vec;
+
+/// A dereference through a `Gc` handle whose slot has been pooled or reused.
+#[derive(Debug, Clone, PartialEq, Eq)]
+pub struct StaleDeref {
+    /// Linear slot index of the GcBox
+    pub slot: usize,
+    /// "borrow" or "borrow_mut"
+    pub op: &'static str,
+    /// Allocation index (per thread) at which the dereference happened
+    pub at_alloc: u64,
+    /// Whether the slot was pooled (true) or already reused by a new tenant (false)
+    pub pooled: bool,
+}
+
+thread_local! {
+    static GC_DECIDER: RefCell<Option<Box<dyn FnMut(u64) -> bool>>> = const { RefCell::new(None) };
+    static ALLOCS: Cell<u64> = const { Cell::new(0) };
+    static COLLECTIONS: Cell<u64> = const { Cell::new(0) };
+    static INJECTED: Cell<u64> = const { Cell::new(0) };
+    static COLLECTIONS_NESTED: Cell<u64> = const { Cell::new(0) };
+    static COLLECTIONS_NESTED2: Cell<u64> = const { Cell::new(0) };
+    static STALE: RefCell<Vec<StaleDeref>> = const { RefCell::new(Vec::new()) };
+    static STALE_CLONES: Cell<u64> = const { Cell::new(0) };
+    static STALE_DROPS: Cell<u64> = const { Cell::new(0) };
+    static INSTRUCTIONS: Cell<u64> = const { Cell::new(0) };
+    static RUN_DEPTH: Cell<u32> = const { Cell::new(0) };
+    static MAX_RUN_DEPTH: Cell<u32> = const { Cell::new(0) };
+    static FUEL: Cell<Option<u64>> = const { Cell::new(None) };
+    static FUEL_EXHAUSTED: Cell<bool> = const { Cell::new(false) };
+}
+
+/// Install (or remove) the collection-point decision function for this thread.
+/// It is called once per allocation with the allocation index; returning `true`
+/// forces a collection before that allocation.
+pub fn set_gc_decider(f: Option<Box<dyn FnMut(u64) -> bool>>) {
+    GC_DECIDER.with(|d| *d.borrow_mut() = f);
+}
+
+/// Called from `Space::alloc_internal` before the threshold test.
+#[inline]
+pub fn on_alloc() -> bool {
+    let idx = ALLOCS.with(|a| {
+        let v = a.get();
+        a.set(v + 1);
+        v
+    });
+    let inject = GC_DECIDER.with(|d| match d.try_borrow_mut() {
+        Ok(mut g) => match g.as_mut() {
+            Some(f) => f(idx),
+            None => false,
+        },
+        Err(_) => false,
+    });
+    if inject {
+        INJECTED.with(|c| c.set(c.get() + 1));
+    }
+    inject
+}
+
+/// Called from `Space::collect`.
+#[inline]
+pub fn on_collect() {
+    COLLECTIONS.with(|c| c.set(c.get() + 1));
+    let depth = RUN_DEPTH.with(|d| d.get());
+    if depth >= 1 {
+        COLLECTIONS_NESTED.with(|c| c.set(c.get() + 1));
+    }
+    if depth >= 2 {
+        COLLECTIONS_NESTED2.with(|c| c.set(c.get() + 1));
+    }
+}
+
+#[inline]
+pub fn on_stale_deref(slot: usize, op: &'static str, pooled: bool) {
+    let at_alloc = ALLOCS.with(|a| a.get());
+    STALE.with(|s| {
+        let mut s = s.borrow_mut();
+        if s.len() < 64 {
+            s.push(StaleDeref {
+                slot,
+                op,
+                at_alloc,
+                pooled,
+            });
+        }
+    });
+}
+
+#[inline]
+pub fn on_stale_clone() {
+    STALE_CLONES.with(|c| c.set(c.get() + 1));
+}
+
+#[inline]
+pub fn on_stale_drop() {
+    STALE_DROPS.with(|c| c.set(c.get() + 1));
+}
+
+/// Called once per `BytecodeVM::step`. Returns `false` when armed fuel is exhausted.
+#[inline]
+pub fn on_instruction() -> bool {
+    INSTRUCTIONS.with(|c| c.set(c.get() + 1));
+    if FUEL_EXHAUSTED.with(|f| f.get()) {
+        return false;
+    }
+    FUEL.with(|f| match f.get() {
+        None => true,
+        Some(0) => {
+            FUEL_EXHAUSTED.with(|e| e.set(true));
+            false
+        }
+        Some(n) => {
+            f.set(Some(n - 1));
+            true
+        }
+    })
+}
+
+/// RAII gauge for nested `BytecodeVM::run` calls.
+pub struct RunDepthGuard;
+
+#[inline]
+pub fn enter_run() -> RunDepthGuard {
+    RUN_DEPTH.with(|d| {
+        let v = d.get() + 1;
+        d.set(v);
+        MAX_RUN_DEPTH.with(|m| {
+            if v > m.get() {
+                m.set(v)
+            }
+        });
+    });
+    RunDepthGuard
+}
+
+impl Drop for RunDepthGuard {
+    fn drop(&mut self) {
+        RUN_DEPTH.with(|d| d.set(d.get().saturating_sub(1)));
+    }
+}
+
+/// Arm (Some(n)) or disarm (None) the instruction fuel; clears the sticky exhausted flag.
+pub fn set_fuel(fuel: Option<u64>) {
+    FUEL.with(|f| f.set(fuel));
+    FUEL_EXHAUSTED.with(|e| e.set(false));
+}
+
+pub fn fuel_exhausted() -> bool {
+    FUEL_EXHAUSTED.with(|e| e.get())
+}
+
+/// Snapshot of all counters of this thread.
+#[derive(Debug, Clone, Default, PartialEq, Eq)]
+pub struct Counters {
+    pub allocs: u64,
+    pub collections: u64,
+    pub injected: u64,
+    /// collections that ran while at least one `BytecodeVM::run` was on the native stack
+    pub collections_nested: u64,
+    /// collections that ran while at least two `BytecodeVM::run` were on the native stack
+    pub collections_nested2: u64,
+    pub stale_clones: u64,
+    pub stale_drops: u64,
+    pub instructions: u64,
+    pub run_depth: u32,
+    pub max_run_depth: u32,
+}
+
+pub fn counters() -> Counters {
+    Counters {
+        allocs: ALLOCS.with(|c| c.get()),
+        collections: COLLECTIONS.with(|c| c.get()),
+        injected: INJECTED.with(|c| c.get()),
+        collections_nested: COLLECTIONS_NESTED.with(|c| c.get()),
+        collections_nested2: COLLECTIONS_NESTED2.with(|c| c.get()),
+        stale_clones: STALE_CLONES.with(|c| c.get()),
+        stale_drops: STALE_DROPS.with(|c| c.get()),
+        instructions: INSTRUCTIONS.with(|c| c.get()),
+        run_depth: RUN_DEPTH.with(|c| c.get()),
+        max_run_depth: MAX_RUN_DEPTH.with(|c| c.get()),
+    }
+}
+
+/// Reset all counters, the stale log, the decider and the fuel of this thread.
+pub fn reset() {
+    set_gc_decider(None);
+    ALLOCS.with(|c| c.set(0));
+    COLLECTIONS.with(|c| c.set(0));
+    INJECTED.with(|c| c.set(0));
+    COLLECTIONS_NESTED.with(|c| c.set(0));
+    COLLECTIONS_NESTED2.with(|c| c.set(0));
+    STALE_CLONES.with(|c| c.set(0));
+    STALE_DROPS.with(|c| c.set(0));
+    INSTRUCTIONS.with(|c| c.set(0));
+    RUN_DEPTH.with(|c| c.set(0));
+    MAX_RUN_DEPTH.with(|c| c.set(0));
+    STALE.with(|s| s.borrow_mut().clear());
+    set_fuel(None);
+}
+
+pub fn instructions() -> u64 {
+    INSTRUCTIONS.with(|c| c.get())
+}
+
+pub fn allocs() -> u64 {
+    ALLOCS.with(|c| c.get())
+}
+
+pub fn run_depth() -> u32 {
+    RUN_DEPTH.with(|c| c.get())
+}
+
+/// Take (and clear) the stale-dereference log of this thread.
+pub fn take_stale_derefs() -> Vec<StaleDeref> {
+    STALE.with(|s| core::mem::take(&mut *s.borrow_mut()))
+}
+
+/// Read-only view of the interpreter's run-related state (see `Interpreter::verif_quiescence`).
+#[derive(Debug, Clone, PartialEq, Eq)]
+pub struct Quiescence {
+    pub env_is_global: bool,
+    pub env_guards: usize,
+    pub call_stack: usize,
+    pub active_vm: bool,
+    pub pending_orders: usize,
+    pub cancelled_orders: usize,
+    pub order_responses: usize,
+    pub suspended_for_order: bool,
+    pub wait_contexts: usize,
+    pub ready_queue: usize,
+    pub pending_program: bool,
+    pub pending_modules: usize,
+    pub exports: usize,
+}
